@@ -297,8 +297,9 @@ func topK[K nodeKey, V any](t Tree[K, V], k uint) iter.Seq2[K, V] {
 			return
 		}
 
+		remaining := k // per pass: the sequence may be iterated again
 		for key, val := range t.Backward() {
-			if k == 0 {
+			if remaining == 0 {
 				return
 			}
 
@@ -306,7 +307,7 @@ func topK[K nodeKey, V any](t Tree[K, V], k uint) iter.Seq2[K, V] {
 				break
 			}
 
-			k--
+			remaining--
 		}
 	}
 }
@@ -317,8 +318,9 @@ func bottomK[K nodeKey, V any](t Tree[K, V], k uint) iter.Seq2[K, V] {
 			return
 		}
 
+		remaining := k // per pass: the sequence may be iterated again
 		for key, val := range t.All() {
-			if k == 0 {
+			if remaining == 0 {
 				return
 			}
 
@@ -326,7 +328,7 @@ func bottomK[K nodeKey, V any](t Tree[K, V], k uint) iter.Seq2[K, V] {
 				break
 			}
 
-			k--
+			remaining--
 		}
 	}
 }
